@@ -67,6 +67,7 @@ class Ctx:
         self.counts: dict[str, int] = {}
         self.rules: dict[str, str] = {}
         self.unresolved: list[str] = []
+        self.deferred: list[str] = []
 
     # rule registration (documentation goes to the evidence)
     def rule(self, rid: str, text: str, floor: int = 1):
@@ -111,14 +112,27 @@ class Ctx:
     def note(self, msg):
         self.notes.append(msg)
 
+    def attempt(self, fn, *args):
+        """Run one rule; a cannot-decide of this rule must not hide findings of others."""
+        try:
+            return fn(*args)
+        except AnalysisError as exc:
+            self.deferred.append(str(exc))
+            return None
+
     def check_floors(self):
+        problems = list(self.deferred)
         for rid, fl in self.floors.items():
             if self.counts.get(rid, 0) < fl:
-                raise AnalysisError(
+                problems.append(
                     f"rule {rid}: {self.counts.get(rid, 0)} instance(s) found, "
                     f"floor confirmed by reading is {fl} - the anchor pattern no "
                     "longer matches the code (cannot decide)"
                 )
+        if problems and not self.findings:
+            raise AnalysisError("; ".join(problems))
+        for p in problems:
+            self.note("cannot decide (reported together with the violations above): " + p)
 
 
 def load_known():
